@@ -164,10 +164,16 @@ func applyMutant(src []byte, m *mutant) []byte {
 }
 
 func runMutants(prop, repo, verifDir string, perFunc, workers int) int {
+	_, code := runMutantsCapped(prop, repo, verifDir, perFunc, workers, 0, true)
+	return code
+}
+
+// runMutantsCapped: maxTotal > 0 keeps an even sample of at most that many mutants (thorough tier); report=false is quiet.
+func runMutantsCapped(prop, repo, verifDir string, perFunc, workers, maxTotal int, report bool) (map[string]interface{}, int) {
 	cs, err := LoadContracts(repo)
 	if err != nil {
 		fmt.Println("ERROR loading contracts:", err)
-		return 2
+		return nil, 2
 	}
 	type target struct{ pkg, key string }
 	var targets []target
@@ -212,7 +218,16 @@ func runMutants(prop, repo, verifDir string, perFunc, workers int) int {
 		}
 		all = append(all, collectMutants(repo, dir, t.key, perFunc)...)
 	}
-	fmt.Printf("%s: %d functions, %d mutants\n", prop, len(targets), len(all))
+	if maxTotal > 0 && len(all) > maxTotal {
+		var sel []*mutant
+		for i := 0; i < maxTotal; i++ {
+			sel = append(sel, all[i*len(all)/maxTotal])
+		}
+		all = sel
+	}
+	if report {
+		fmt.Printf("%s: %d functions, %d mutants\n", prop, len(targets), len(all))
+	}
 	self, _ := os.Executable()
 	jobs := make(chan *mutant)
 	var wg sync.WaitGroup
@@ -290,14 +305,23 @@ func runMutants(prop, repo, verifDir string, perFunc, workers int) int {
 	for _, m := range all {
 		count[m.Status]++
 	}
-	fmt.Printf("%s mutants: killed %d, survived %d, rejected by the package's tests %d, not compiling %d, errors %d\n", prop, count["killed"], count["survived"], count["rejected-by-tests"], count["does-not-compile"], count["error"])
+	var survivors []string
 	for _, m := range all {
 		if m.Status == "survived" || m.Status == "error" {
-			fmt.Printf("  %s %s:%d %s %s: %q -> %q %s\n", strings.ToUpper(m.Status), m.File, m.Line, m.Func, m.Kind, m.From, m.To, m.Detail)
+			survivors = append(survivors, fmt.Sprintf("%s %s:%d %s %s: %q -> %q %s", strings.ToUpper(m.Status), m.File, m.Line, m.Func, m.Kind, m.From, m.To, m.Detail))
 		}
 	}
-	os.MkdirAll(filepath.Join(verifDir, "mutation"), 0o755)
-	data, _ := json.MarshalIndent(map[string]interface{}{"property": prop, "functions": len(targets), "counts": count, "mutants": all}, "", " ")
-	os.WriteFile(filepath.Join(verifDir, "mutation", prop+".json"), data, 0o644)
-	return 0
+	summary := map[string]interface{}{"functions": len(targets), "mutants": len(all), "killed_by_contracts": count["killed"], "survived": count["survived"],
+		"rejected_by_existing_tests": count["rejected-by-tests"], "not_compiling": count["does-not-compile"], "errors": count["error"], "survivors": survivors,
+		"note": "first-order mutants of the functions under contract; survivors are equivalent mutants, non-terminating mutants or contract holes (see DESIGN.md 6.11); informational, does not affect the exit code"}
+	if report {
+		fmt.Printf("%s mutants: killed %d, survived %d, rejected by the package's tests %d, not compiling %d, errors %d\n", prop, count["killed"], count["survived"], count["rejected-by-tests"], count["does-not-compile"], count["error"])
+		for _, s := range survivors {
+			fmt.Println("  " + s)
+		}
+		os.MkdirAll(filepath.Join(verifDir, "mutation"), 0o755)
+		data, _ := json.MarshalIndent(map[string]interface{}{"property": prop, "functions": len(targets), "counts": count, "mutants": all}, "", " ")
+		os.WriteFile(filepath.Join(verifDir, "mutation", prop+".json"), data, 0o644)
+	}
+	return summary, 0
 }
